@@ -468,8 +468,8 @@ enum { OS_IDLE, OS_DATA, OS_CHILD_CLOSED, OS_PARENT_CLOSED, OS_EOF_REPORTED, OS_
 static const char *const os_names[] = { "idle", "data", "closed-by-child", "closed-by-parent", "eof-reported", "not-a-pipe", "idle,after-an-interrupted-read" };
 enum { INS_IDLE, INS_CHILD_CLOSED, INS_PARENT_CLOSED, INS_FULL, INS_FULL_CHILD_CLOSED, INS_INPUT, NINS };
 static const char *const ins_names[] = { "idle", "closed-by-child", "closed-by-parent", "full", "full,then-closed-by-child", "closed-after-start-up-input" };
-enum { CS_RUNNING, CS_ZOMBIE, CS_REAPED, NCS };
-static const char *const cs_names[] = { "running", "zombie", "reaped" };
+enum { CS_RUNNING, CS_ZOMBIE, CS_REAPED, CS_WAITFAIL, NCS };
+static const char *const cs_names[] = { "running", "zombie", "reaped", "zombie,reap-interrupted" };
 
 enum { CL9_EXACT, CL9_COUNT, CL9_EPIPE, CL9_NOT_EPIPE, CL9_FOLLOWUP_READ, CL9_FOLLOWUP_WRITE, CL9_FOLLOWUP_WAIT, CL9_BIT_IN, CL9_BIT_OUT, CL9_BIT_ERR, CL9_BIT_EXIT,
        CL9_NOBIT_IN, CL9_NOBIT_OUT, CL9_NOBIT_ERR, CL9_NOBIT_EXIT, CL9_TIMEOUT, CL9_DEADLINE };
@@ -560,6 +560,14 @@ static void c09_prepare(struct proc *q, const struct c09_setup *su)
   if (su->cs == CS_REAPED) {
     int r = hx_wait(q->p, REPROC_INFINITE);
     if (r != 6) vk_finish(OUT_INFRA, "setup wait returned %d", r);
+  }
+  if (su->cs == CS_WAITFAIL) {
+    /* a wait found the child gone but its reap was interrupted: the child is still an unreaped zombie and its exit is still there to be reported */
+    vk_force_fault(C_WAITPID, EINTR);
+    int r = hx_wait(q->p, REPROC_INFINITE);
+    vk_force_fault(0, 0);
+    if (r != -EINTR && r != 6) vk_finish(OUT_INFRA, "setup wait with an interrupted reap returned %d", r);
+    if (r == -EINTR && !still_held(q, 3)) vk_violation("C09", "exit-handle-kept-after-interrupted-reap", "h_c09|setup", "after a wait whose reap was interrupted the parent no longer holds the exit handle: the exit can never be reported again");
   }
   vk_cfg.sched_on = s;
 }
